@@ -4,7 +4,8 @@ package blocktree
 
 // C15: Block tree structure matches the added blocks.
 //
-// Histories  A^n [ P [ A^k [ P ] ] ]  on the real BlockTree:
+// Histories  A^n [R] | A^n P [R] | A^n P A^k [P]  on the real BlockTree:
+//   R   : AddBlock of a block that was already created (held, finalised away or pruned),
 //   A^n : every parent vector with n nodes (= every parent-first insertion history of every
 //         rooted tree with n nodes) x every primary/secondary marking,
 //   P   : Prune(x) for every block x ever created (held or not),
@@ -19,17 +20,20 @@ import (
 	"crypto/sha256"
 	"encoding/json"
 	"fmt"
+	"runtime/debug"
 	"os"
 		"strings"
 	"sync"
 	"testing"
 	"time"
 
+	"github.com/ChainSafe/gossamer/internal/log"
 	"github.com/ChainSafe/gossamer/internal/verifmc"
 	"github.com/ChainSafe/gossamer/lib/common"
 )
 
 type c15Op struct {
+	readd   bool // add the block with label target a second time
 	prune   bool
 	target  int  // prune: label
 	parent  int  // add: label of the parent
@@ -39,6 +43,9 @@ type c15Op struct {
 func (o c15Op) String() string {
 	if o.prune {
 		return fmt.Sprintf("prune(b%d)", o.target)
+	}
+	if o.readd {
+		return fmt.Sprintf("readd(b%d)", o.target)
 	}
 	mk := "S"
 	if o.primary {
@@ -97,6 +104,21 @@ func c15Exec(rootNum uint, ops []c15Op, c *c15Ctx) (*BlockTree, *c15Model) {
 	for i, op := range ops {
 		last := i == len(ops)-1
 		c.trans++
+		if op.readd {
+			// a block is held at most once; a block the tree does not hold has no held parent
+			err := bt.AddBlock(m.header[op.target], time.Unix(2000+int64(i), 0))
+			if last {
+				switch {
+				case err == nil:
+					c.out("AddBlock:again:nil-error") // the state check decides
+				case m.inTree[op.target]:
+					c.out("AddBlock:again:held:error")
+				default:
+					c.out("AddBlock:again:not-held:error")
+				}
+			}
+			continue
+		}
 		if !op.prune {
 			wantHeld := m.inTree[op.parent]
 			_, h := m.newBlock(op.parent, op.primary)
@@ -628,8 +650,14 @@ type c15Elem struct {
 func c15RunElem(e c15Elem, c *c15Ctx) {
 	c15Eval(e.rootNum, e.base, c)
 	for x := 0; x < e.n; x++ {
+		c15Eval(e.rootNum, append(append([]c15Op{}, e.base...), c15Op{readd: true, target: x}), c)
+	}
+	for x := 0; x < e.n; x++ {
 		h1 := append(append([]c15Op{}, e.base...), c15Op{prune: true, target: x})
 		c15Eval(e.rootNum, h1, c)
+		for y := 0; y < e.n && e.n <= 5; y++ {
+			c15Eval(e.rootNum, append(append([]c15Op{}, h1...), c15Op{readd: true, target: y}), c)
+		}
 		for k := 1; k <= e.round2; k++ {
 			c15Adds(e.n, k, func(adds []c15Op) {
 				h2 := append(append([]c15Op{}, h1...), adds...)
@@ -659,6 +687,8 @@ func c15Replayed(t *testing.T, r *verifmc.Report, path string) {
 		var mk string
 		if _, err := fmt.Sscanf(s, "prune(b%d)", &o.target); err == nil {
 			o.prune = true
+		} else if _, err := fmt.Sscanf(s, "readd(b%d)", &o.target); err == nil {
+			o.readd = true
 		} else if _, err := fmt.Sscanf(strings.TrimSuffix(s, ")"), "add(<-b%d,%s", &o.parent, &mk); err == nil {
 			o.primary = mk == "P"
 		} else {
@@ -680,6 +710,8 @@ func c15Replayed(t *testing.T, r *verifmc.Report, path string) {
 func TestVerif_C15(t *testing.T) {
 	r := verifmc.NewReport("C15", "blocktree-structure", "model_checking")
 	defer r.Write()
+	logger.Patch(log.SetLevel(log.Critical)) // Prune warns "no runtimes in the mapping" on every call
+	defer debug.SetGCPercent(debug.SetGCPercent(400))
 	if p := os.Getenv("VERIF_REPLAY"); p != "" {
 		c15Replayed(t, r, p)
 		return
@@ -704,7 +736,7 @@ func TestVerif_C15(t *testing.T) {
 		}
 		return 0
 	}
-	r.Rule = fmt.Sprintf("histories A^n [P [A^k [P]]] on the real BlockTree: A^n = every parent vector with n<=%d nodes x every primary/secondary marking x root number in %v; P = Prune of every block ever created; A^k = further additions below every block ever created (held, finalised away, pruned or rejected) x every marking, k<=%s; each history is replayed on a fresh tree, the result of its last mutator and GetAllBlocks/Leaves/GetAllDescendants/IsDescendantOf/LowestCommonAncestor/Range/RangeInMemory for all ordered pairs of held blocks (blocks the tree must not hold: paired with the root and a leaf) and GetHashesAtNumber/GetHashByNumber for every number are compared with a parent-map model; non-trivial = distinct canonical dump of the private tree", n1, rootNums,
+	r.Rule = fmt.Sprintf("histories A^n [R] | A^n P [R] | A^n P A^k [P] on the real BlockTree: R = AddBlock of an already created block a second time (every block; after P only for n<=5); A^n = every parent vector with n<=%d nodes x every primary/secondary marking x root number in %v; P = Prune of every block ever created; A^k = further additions below every block ever created (held, finalised away, pruned or rejected) x every marking, k<=%s; each history is replayed on a fresh tree, the result of its last mutator and GetAllBlocks/Leaves/GetAllDescendants/IsDescendantOf/LowestCommonAncestor/Range/RangeInMemory for all ordered pairs of held blocks (blocks the tree must not hold: paired with the root and a leaf) and GetHashesAtNumber/GetHashByNumber for every number are compared with a parent-map model; non-trivial = distinct canonical dump of the private tree", n1, rootNums,
 		verifmc.Pick("2 for n<=4 with root number 0", "3 for n<=4, 2 for n=5, 1 for n=6, both root numbers"))
 	r.Assumption("reference model: parent map over labelled blocks (harness/shared/lib__blocktree/c15_blocktree_common_test.go); the best leaf used for the by-number oracle is the tree's own BestBlockHash (its choice is C16's subject)")
 
